@@ -856,7 +856,6 @@ static int encode_section( const int16_t *inbuf,
 // Return -1 if error
 int mlw_encode( int16_t *inbuf, int inbuf_size, uint8_t **outbuf, int verbose) {
     int i;
-#ifndef NDEBUG
     // Range check
     for(i=0; i<inbuf_size; i++) {
         if (inbuf[i]<-255 || inbuf[i]>255) {
@@ -864,7 +863,6 @@ int mlw_encode( int16_t *inbuf, int inbuf_size, uint8_t **outbuf, int verbose) {
             return -1;
         }
     }
-#endif
 
     int bitbuf_size = inbuf_size*2+1024;
     assert(*outbuf == NULL);
